@@ -155,6 +155,51 @@ func hasNumeralArg(args []string) bool {
 	return false
 }
 
+// boundVarsOf returns the binder list "(q!a S1) (q!b S2)" for the quantified variables (names starting with q!) that
+// occur in app, with the sorts they are bound with somewhere in text; "" if a sort cannot be found.
+func boundVarsOf(app, text string) string {
+	var names []string
+	seen := map[string]bool{}
+	for i := 0; i+2 <= len(app); i++ {
+		if app[i] == 'q' && app[i+1] == '!' && (i == 0 || app[i-1] == ' ' || app[i-1] == '(') {
+			j := i
+			for j < len(app) && app[j] != ' ' && app[j] != ')' && app[j] != '(' {
+				j++
+			}
+			n := app[i:j]
+			if !seen[n] {
+				seen[n] = true
+				names = append(names, n)
+			}
+		}
+	}
+	var out []string
+	for _, n := range names {
+		pat := "(" + n + " "
+		k := strings.Index(text, pat)
+		found := ""
+		for k >= 0 {
+			// a binder looks like "(q!k Int)" or "(q!a Key.x)": one more token and a closing parenthesis
+			rest := text[k+len(pat):]
+			e := strings.IndexAny(rest, " ()")
+			if e > 0 && rest[e] == ')' {
+				found = rest[:e]
+				break
+			}
+			nk := strings.Index(text[k+1:], pat)
+			if nk < 0 {
+				break
+			}
+			k = k + 1 + nk
+		}
+		if found == "" {
+			return ""
+		}
+		out = append(out, "("+n+" "+found+")")
+	}
+	return strings.Join(out, " ")
+}
+
 const unfoldDepthConst = 70
 
 // unfoldInstances returns the ground unfolding equations for the recursive spec applications occurring in text.
@@ -183,6 +228,17 @@ func (c *Ctx) unfoldInstances(text string) []string {
 				}
 				seen[app] = true
 				inst := foldConstArith(substTokens(rs.body, rs.params, args))
+				if strings.Contains(app, "q!") {
+					// the application sits under a quantifier and mentions its bound variables: the unfolding equation is
+					// stated for all values of those variables, triggered by the application itself (and not unfolded
+					// further, so that it cannot feed itself)
+					binds := boundVarsOf(app, text)
+					if binds == "" {
+						continue
+					}
+					out = append(out, "(forall ("+binds+") (! (= "+app+" "+inst+") :pattern ("+app+")))")
+					continue
+				}
 				out = append(out, "(= "+app+" "+inst+")")
 				next.WriteString(inst)
 				next.WriteByte('\n')
